@@ -371,3 +371,42 @@ pub fn install(s: &Arc<Sched>) {
 pub fn uninstall() {
     verif_hook::set_hook(None);
 }
+
+// ------------------------------------------------------------------------------------------------
+// Jitter hook: real OS threads, no serialisation; one role is slowed down at each of its hook points.
+// ------------------------------------------------------------------------------------------------
+
+/// Delays the threads of one role (0 = hashing thread, 1 = main/feeder, 2 = workers) by `micros` at every
+/// hook point they pass, using the same hook the scheduler uses. Threads run truly concurrently; the
+/// delays only bias which thread falls behind (e.g. a hashing thread that lags the feeder by more
+/// than the capacity of its queue).
+pub struct Jitter {
+    victim: u8,
+    micros: u64,
+    main: ThreadId,
+    roles: Mutex<HashMap<ThreadId, Role>>,
+}
+
+impl Jitter {
+    pub fn new(victim: u8, micros: u64) -> Arc<Self> {
+        Arc::new(Self { victim: victim % 3, micros, main: std::thread::current().id(), roles: Mutex::new(HashMap::new()) })
+    }
+}
+
+impl Hook for Jitter {
+    fn spawned(&self, child: ThreadId, role: Role) {
+        self.roles.lock().unwrap().insert(child, role);
+    }
+    fn before(&self, _op: Op, _obj: Obj, _ready: &dyn Fn() -> bool) {
+        let me = std::thread::current().id();
+        let role = if me == self.main { 1u8 } else { match self.roles.lock().unwrap().get(&me) { Some(Role::Hasher) => 0, Some(Role::Worker) => 2, None => 3 } };
+        if role == self.victim {
+            std::thread::sleep(std::time::Duration::from_micros(self.micros));
+        }
+    }
+    fn thread_end(&self) {}
+}
+
+pub fn install_jitter(j: &Arc<Jitter>) {
+    flacenc::verif_hook::set_hook(Some(j.clone() as Arc<dyn Hook>));
+}
